@@ -22,6 +22,13 @@ class Finding:
         return "%s|%s" % (self.rule, self.key)
 
 
+def _private_anchor(key):
+    import re
+    names = re.findall(r"[A-Za-z_][A-Za-z_0-9]*", str(key).split("/")[0].split(" ")[0])
+    last = names[-1] if names else ""
+    return last.startswith("_") and not (last.startswith("__") and last.endswith("__"))
+
+
 class Reporter:
     def __init__(self, prop, tier, seed=0):
         self.prop = prop
@@ -47,6 +54,13 @@ class Reporter:
         r["instances"].append({"key": key, "ok": True, "what": what})
 
     def bad(self, rid, key, message, site=None, detail=None):
+        if isinstance(message, str) and message.startswith("required mechanism not found") and _private_anchor(key):
+            # a private helper the rule is anchored in is gone (renamed, inlined, split): the analyser's picture of the code
+            # no longer applies -- that is an analysis failure (exit 2), not evidence that the property is broken. A missing
+            # *public* member stays a violation.
+            from .model import AnalysisError
+            raise AnalysisError("%s: the private helper %s this rule is anchored in was not found (renamed / inlined?); the "
+                                "rule cannot be decided on this tree" % (rid, key))
         r = self.rules[rid]
         seen = r.setdefault("_keys", {})
         if seen.get(key) is False:
